@@ -17,9 +17,9 @@ CHECKS = {
          "Real chain to 556766, then thousands of offers at 556767 (BSV, BCH, generated) on main chain and forks; VerifyHeader table; peer side: verified iff first header is the BSV split header.", "3/C03"),
  "C04": ("fault_enumeration", "fault injection: every single-point corruption and fault point of generated blocks delivered to the real BlockDownloader (recording processor / store); proofs re-verified by a reference merkle implementation; end-to-end slice through a real node over loopback; race detector",
          "Exhaustive single-point corruption and fault-point enumeration for small blocks, sampled for larger ones; the oracle is the implication effects => (header, count, merkle root all verified) plus order/identity/proof validity of the confirmations.", "3/C04"),
- "C05": ("exploration", "runtime monitoring: offline order / exactly-once / conservation checker over the recorded block-request and processing log of a real NodeManager + BlockManager driven by a scripted, failing block source; bounded-progress check at observed quiescence; race detector",
+ "C05": ("exploration", "runtime monitoring: offline order / exactly-once / conservation checker over the recorded block-request and processing log of a real NodeManager + BlockManager driven by a scripted, failing block source; bounded-progress check at observed quiescence; race detector; thorough tier adds a gofail failpoint phase (seeded sleeps between critical sections of the block manager/downloader)",
          "Thousands of scenarios over chain length, start height, already-processed sets, mid-round headers, source failures and reorgs with pending requests; the request log must be contiguous ascending best-chain blocks from the right first height, never below start / already processed, each processed once, and complete after the final trigger.", "3/C05"),
- "C06": ("exploration", "runtime monitoring: recorded concurrent histories of the real TxManager checked offline - conservation (exactly-once), never-after-delivery, per-txid linearizability (porcupine) and a one-sided timing inequality for re-requests; end-to-end slice with real nodes sharing the manager; race detector",
+ "C06": ("exploration", "runtime monitoring: recorded concurrent histories of the real TxManager checked offline - conservation (exactly-once), never-after-delivery, per-txid linearizability (porcupine) and a one-sided timing inequality for re-requests; end-to-end slice with real nodes sharing the manager; race detector; thorough tier adds a gofail failpoint phase (seeded sleeps between the lock regions of AddTxID/AddTx/GetTxRequests)",
          "Thousands of histories with 2-16 concurrent peers over few txids in two timeout regimes; every call recorded at the client boundary; bounded-retry polls at quiescence instead of an unbounded eventually.", "3/C06"),
  "C07": ("exploration", "runtime monitoring: stream applier + set-difference oracle on the subscriber channels after every submission",
          "Announcements of every submission compared with best-chain-after minus best-chain-before for 0-3 subscribers over seeded histories with every reorg kind.", "3/C07"),
@@ -31,15 +31,15 @@ CHECKS = {
          "Clean at every kind of position, repeated, small prune depths via hook and real 10000 depth via long chains; history continues afterwards.", "3/C10"),
  "C11": ("exploration", "runtime monitoring: original vs loaded vs reference model, twin continuation after Save/Load, legacy-file migration",
          "Multi-generation Save/Load with Clean in between; loaded instance compared with original and model; both receive the same continuation.", "3/C11"),
- "C12": ("fault_enumeration", "fault injection: every prefix of the journalled Write/Remove sequence of each Clean/Save is loaded by a fresh repository and checked",
+ "C12": ("fault_enumeration", "fault injection: every prefix of the journalled Write/Remove sequence of each Clean/Save is loaded by a fresh repository (production Load, and the load step at the history's hook prune depth) and checked; plus one production-depth scenario (10010-header chain, 10005-deep reorganisation)",
          "Per history the crash points of every maintenance op are enumerated exhaustively (each key write atomic); histories themselves are sampled.", "3/C12"),
  "C13": ("exploration", "runtime monitoring: spies on header repository / peer book / tx processor and on the bytes the scripted peer receives while a real BitcoinNode (and a real NodeManager) is connected to unverified scripted peers over loopback; race detector",
          "Hundreds to thousands of sessions in which the peer sends every message kind before, during and around a failing verification; zero-contact oracle evaluated while Verified() is false.", "3/C13"),
  "C14": ("exploration", "runtime monitoring: ping/pong barrier after generated well-formed message sequences against a real BitcoinNode over loopback; close-cause classifier; race detector",
          "Seeded sequences over the full command set incl. made-up commands, classic and extended framing, payloads up to several MB, every block/tx state; a pong must follow each sequence.", "3/C14"),
  "C15": ("exploration", "runtime monitoring with process supervision: hostile byte streams against real BitcoinNodes inside journalled, memory-budgeted worker processes; liveness of the worker, of a canary connection and of Run; second pass under the race detector",
-         "Each case delivers one generated hostile input (random, mutated valid messages, hostile declared lengths and counts, extended headers up to 2^64-1, every bits exponent, handshake floods) at one of three session stages; a dead worker is attributed to the journalled case and re-run alone.", "3/C15"),
- "C16": ("exploration", "runtime monitoring: seeded schedules of handler / Cancel / Stop / interrupt against the real BlockDownloader and BlockManager with scheduling perturbations inside the critical windows; terminal-signal counting, goroutine-state classification on watchdog expiry; race detector",
+         "Each case delivers one generated hostile input (random, mutated valid messages, hostile declared lengths and counts, extended headers up to 2^64-1, every bits exponent, handshake floods) at one of four session stages (before handshake, during verification, ready, ready with a block request outstanding); hostile headers payloads also go straight into Repository.HandleHeadersMessage; a dead worker is attributed to the journalled case and re-run alone.", "3/C15"),
+ "C16": ("exploration", "runtime monitoring: seeded schedules of handler / Cancel / Stop / interrupt against the real BlockDownloader and BlockManager with scheduling perturbations inside the critical windows; terminal-signal counting, goroutine-state classification on watchdog expiry; race detector; thorough tier adds a gofail failpoint phase (seeded sleeps after the state decisions of Cancel/Stop, after the Started send and around downloader registration/removal)",
          "Tens of thousands of level-1 schedules (distinct observed event orders reported) and thousands of level-2 manager scenarios with failing sources, aborts and shutdown; exactly-one-terminal-signal, completion-implies-success, downloader list empties, concurrency bound.", "3/C16"),
  "C17": ("exploration", "runtime monitoring: reference model with invalid marks vs repository after every mark/unmark/submit/Save/Load",
          "Marks on best chain at several depths, side branches, unseen and unknown hashes, repeated marks, unmark+resubmit, reload.", "3/C17"),
@@ -47,7 +47,7 @@ CHECKS = {
          "For each sampled block of each generated history (best chain, side branch, pruned history; 1-70 txids) valid proofs in 4 encodings are verified and then every single-element corruption is enumerated.", "3/C18"),
  "C19": ("exploration", "runtime monitoring: locator well-formedness oracle after every operation + simulated conformant peer replies submitted back",
          "Locators for max in {1,2,3,10,50} after every op; real-chain fixture sweep around the split heights; peer replies must connect.", "3/C19"),
- "C20": ("exploration", "runtime monitoring: linearizability checking (porcupine) of recorded concurrent peer-book histories under the race detector; model-based sequential differential incl. Save/Load round trip; fault enumeration over every prefix of saved files and damaged contents",
+ "C20": ("exploration", "runtime monitoring: linearizability checking (porcupine) of recorded concurrent peer-book histories under the race detector; model-based sequential differential incl. Save/Load round trip and Load on a repository in use; Save/Load/Clear inside the concurrent histories; fault enumeration over every prefix of saved files and damaged contents",
          "Concurrent histories <= 40 ops checked against a sequential specification; sequential sequences vs model; every file prefix and seeded damaged files through Load, huge declared sizes in a 4 GiB child process.", "3/C20"),
 }
 NOT_YET = {}
